@@ -301,8 +301,21 @@ fn sel_expr(sel: Sel, literal: bool, level: u8) -> Expr {
     }
 }
 
-/// Expression for a node; `replace` = build P' (dead slots become constants).
+// Expression for a node; `replace` = build P' (dead slots become constants).
+thread_local! {
+    /// while set, every probe / filler slot is wrapped as `{ debug_assert(true) :slot }`
+    static WRAP_SLOTS: std::cell::Cell<bool> = const { std::cell::Cell::new(false) };
+}
+
 fn expr_of(n: &Node, replace: bool, never_pos: bool) -> Expr {
+    let e = expr_of_inner(n, replace, never_pos);
+    if !never_pos && WRAP_SLOTS.with(|w| w.get()) && matches!(n, Node::Probe(..) | Node::Dead(..)) {
+        return Expr::Block(vec![Stmt::DebugAssert(Expr::Bool(true))], bx(e));
+    }
+    e
+}
+
+fn expr_of_inner(n: &Node, replace: bool, never_pos: bool) -> Expr {
     match n {
         Node::Probe(VT::Int, id) => {
             let call = Expr::Ffi("probe", "hit", vec![Expr::Int(*id)]);
@@ -560,7 +573,41 @@ fn cases(tier: Tier) -> Vec<Case> {
         keyed.name = "f".into();
         let args = args_for(sel, nested.map(|n| n.2), payload);
         let key = format!("{} :: {}", print_fn(&keyed), crate::c22::tuple_text_named(&SIG, &args));
-        out.push(Case { p, p_replaced, key, args, want, want_log: log, dead_slots: dead, nested: nested.is_some(), cond_family: false });
+        out.push(Case { p, p_replaced, key, args: args.clone(), want, want_log: log.clone(), dead_slots: dead, nested: nested.is_some(), cond_family: false });
+        // straight-line statements before the construct, and debug_assert inside every slot
+        if !matches!(fill, Fill::Todo | Fill::ForeignCall) || literal {
+            return;
+        }
+        let n0 = || Expr::Var("n0".into());
+        let mut prefixes: Vec<Vec<Stmt>> = vec![vec![Stmt::DebugAssert(Expr::Bool(true))]];
+        if nested.is_none() {
+            prefixes.extend([
+                vec![Stmt::DebugAssert(Expr::Bin(Bin::Eq, bx(n0()), bx(n0())))],
+                vec![Stmt::Let("z9".into(), Expr::Builtin(Builtin::SatAdd, bx(n0()), bx(Expr::Int(1))))],
+                vec![Stmt::Check(Expr::Bool(true), Expr::Ret(bx(Expr::Int(-998))))],
+                vec![Stmt::Let("z9".into(), Expr::Call("boom_check".into(), vec![Expr::Int(-1)]))],
+                vec![Stmt::DebugAssert(Expr::Bool(true)), Stmt::Let("z9".into(), Expr::Int(1)), Stmt::DebugAssert(Expr::Bin(Bin::Gt, bx(Expr::Var("z9".into())), bx(Expr::Int(0))))],
+            ]);
+        }
+        let mut variants: Vec<(Vec<Stmt>, Vec<Stmt>)> = Vec::new();
+        for pre in prefixes {
+            let mut b = pre.clone();
+            b.extend(body_of(&node, false));
+            let mut r = pre;
+            r.extend(body_of(&node, true));
+            variants.push((b, r));
+        }
+        WRAP_SLOTS.with(|w| w.set(true));
+        variants.push((body_of(&node, false), body_of(&node, true)));
+        WRAP_SLOTS.with(|w| w.set(false));
+        for (b, r) in variants {
+            let p = FnDef { name: String::new(), params: params.clone(), ret: Ty::Int, body: b };
+            let p_replaced = FnDef { name: String::new(), params: params.clone(), ret: Ty::Int, body: r };
+            let mut keyed = p.clone();
+            keyed.name = "f".into();
+            let key = format!("{} :: {}", print_fn(&keyed), crate::c22::tuple_text_named(&SIG, &args));
+            out.push(Case { p, p_replaced, key, args: args.clone(), want, want_log: log.clone(), dead_slots: dead, nested: nested.is_some(), cond_family: false });
+        }
     };
     for k in K::outer_kinds() {
         for sel in k.sels() {
